@@ -9,7 +9,7 @@
    ([enc_ok], [lower_ok], [idna_ok], [ipv6_ok], [unquote_ok] - Proofs/UrlEncProofs.v,
    Proofs/UrlC10.v), each of which ./check C10 samples against the real library. *)
 From Coq Require Import List NArith ZArith Bool.
-From Wpull Require Import Model.UrlLib Model.Url Proofs.UrlPeProofs Proofs.UrlEscCaseProofs Proofs.UrlFragProofs Proofs.UrlPathProofs Proofs.UrlEncProofs
+From Wpull Require Import Model.UrlLib Model.Url Proofs.UrlPeProofs Proofs.UrlEscCaseProofs Proofs.UrlFragProofs Proofs.ConstsAgree Gen.Consts Proofs.UrlPathProofs Proofs.UrlEncProofs
   Proofs.UrlNormProofs Proofs.UrlC10 Proofs.UrlEquivProofs Proofs.UrlEquiv2Proofs.
 Import ListNotations.
 Open Scope N_scope.
@@ -203,6 +203,22 @@ Example C10_fragment_nonvacuous :
   | _, _ => False
   end.
 Proof. cbv zeta. vm_compute. repeat split; discriminate. Qed.
+
+(* ---------- the constants of the model are the constants of the source tree ---------- *)
+(* Gen/Consts.v is regenerated from wpull/url.py on every run (fail-closed AST evaluator): the encode sets, the
+   forbidden host characters, the C0 set parse rejects and the default-port table of the model are exactly the
+   ones the code defines - for every character / every scheme string *)
+Theorem C10_constants_are_the_sources :
+  (forall c, memb c default_encode_set = memb c gen_default_encode_set /\
+             memb c password_encode_set = memb c gen_password_encode_set /\
+             memb c username_encode_set = memb c gen_username_encode_set /\
+             memb c query_encode_set = memb c gen_query_encode_set /\
+             memb c fragment_encode_set = memb c gen_fragment_encode_set /\
+             memb c forbidden_hostname_chars = memb c gen_forbidden_hostname_chars) /\
+  (forall c, memb c gen_c0_control_set = (c <? 32)) /\
+  (forall scheme, default_port scheme = assoc_str scheme gen_default_ports).
+Proof. exact (conj url_encode_sets_agree (conj url_c0_set_agrees url_default_ports_agree)). Qed.
+Print Assumptions C10_constants_are_the_sources.
 
 (* ---------- component laws ---------- *)
 (* flatten_path (with slash flattening, as normalize_path calls it) is idempotent ... *)
